@@ -102,8 +102,8 @@ func TestC15Runnable(t *testing.T) {
 		func() {
 			defer func() { panicked = recover() }()
 			stats := &proxy.HttpStatsHandler{Noroute: metrics.DiscardProvider{}.NewCounter("x")}
-			h := newHTTPProxy(cfg, stats)
-			_ = newGrpcProxy(cfg, nil, &proxy.GrpcStatsHandler{})
+			h := flexAs[*proxy.HTTPProxy](newHTTPProxy, cfg, stats, firstListen(cfg))
+			_ = flex(newGrpcProxy, cfg, &proxy.GrpcStatsHandler{})
 			for i := 0; i < 2*hosts+2; i++ {
 				host := fmt.Sprintf("x%d.h%d.example", i, i%hosts)
 				if i == 2*hosts {
